@@ -3,7 +3,9 @@ package h
 import (
 	"context"
 	"fmt"
+	"math/rand"
 	"sort"
+	"strconv"
 	"strings"
 	"time"
 
@@ -11,6 +13,7 @@ import (
 
 	"github.com/openfga/openfga/internal/graph"
 	"github.com/openfga/openfga/internal/modelgraph"
+	"github.com/openfga/openfga/internal/planner"
 	"github.com/openfga/openfga/pkg/server/commands"
 	"github.com/openfga/openfga/pkg/tuple"
 	"github.com/openfga/openfga/pkg/typesystem"
@@ -79,11 +82,11 @@ type ORef struct {
 type Tree struct {
 	Name     ORef    `json:"name"`
 	K        string  `json:"k"`
-	Users    []Subj  `json:"users,omitempty"`
+	Users    *[]Subj `json:"users,omitempty"`
 	Sorted   bool    `json:"sorted"`
 	Target   *ORef   `json:"target,omitempty"`
 	TS       *ORef   `json:"ts,omitempty"`
-	Computed []ORef  `json:"computed,omitempty"`
+	Computed *[]ORef `json:"computed,omitempty"`
 	Ch       []*Tree `json:"ch,omitempty"`
 	Base     *Tree   `json:"base,omitempty"`
 	Sub      *Tree   `json:"sub,omitempty"`
@@ -142,8 +145,31 @@ func (e *Env) RunCheck(ctx context.Context, ev *CheckEv, ts *typesystem.TypeSyst
 			ContextualTuples: CtxTuples(ev.Ctxt), Context: ev.Ctx.ToProto(), Consistency: consistency(ev.HC)})
 		allowed = resp.GetAllowed()
 	case strings.HasPrefix(ev.Eng, "v1:"):
-		checker := graph.NewLocalChecker(graph.WithPlanner(&Forced{strings.TrimPrefix(ev.Eng, "v1:")}))
-		cmd := commands.NewCheckCommand(e.DS, checker, ts)
+		// v1:<strategy|script-<seed>>[:b<breadth>][:r<reads>]
+		parts := strings.Split(strings.TrimPrefix(ev.Eng, "v1:"), ":")
+		var pl planner.Manager = &Forced{parts[0]}
+		if strings.HasPrefix(parts[0], "script-") {
+			seed, _ := strconv.ParseInt(strings.TrimPrefix(parts[0], "script-"), 10, 64)
+			rr := rand.New(rand.NewSource(seed))
+			script := make([]int, 16)
+			for i := range script {
+				script[i] = rr.Intn(6)
+			}
+			pl = NewScripted(script)
+		}
+		lopts := []graph.LocalCheckerOption{graph.WithPlanner(pl)}
+		var copts []commands.CheckQueryOption
+		for _, p := range parts[1:] {
+			n, _ := strconv.Atoi(p[1:])
+			switch p[0] {
+			case 'b':
+				lopts = append(lopts, graph.WithResolveNodeBreadthLimit(uint32(n)))
+			case 'r':
+				copts = append(copts, commands.WithCheckCommandMaxConcurrentReads(uint32(n)))
+			}
+		}
+		checker := graph.NewLocalChecker(lopts...)
+		cmd := commands.NewCheckCommand(e.DS, checker, ts, copts...)
 		var res *commands.CheckResult
 		res, err = cmd.Execute(ctx, &commands.CheckCommandParams{StoreID: e.StoreID,
 			TupleKey:         tuple.NewCheckRequestTupleKey(ev.O.String(), ev.R, ev.U.String()),
@@ -183,9 +209,17 @@ func (e *Env) RunListObjects(ctx context.Context, ev *ListObjectsEv) {
 	ev.E = "ListObjects"
 	ev.Ctx = normCtx(ev.Ctx)
 	ev.Ctxt = normTuples(ev.Ctxt)
-	resp, err := e.S.ListObjects(ctx, &openfgav1.ListObjectsRequest{StoreId: e.StoreID, AuthorizationModelId: e.ModelID,
-		Type: ev.T, Relation: ev.R, User: ev.U.String(), ContextualTuples: CtxTuples(ev.Ctxt), Context: ev.Ctx.ToProto(),
-		Consistency: consistency(ev.HC)})
+	var resp *openfgav1.ListObjectsResponse
+	var err error
+	if !Watchdog(HangLimit, func() {
+		resp, err = e.S.ListObjects(ctx, &openfgav1.ListObjectsRequest{StoreId: e.StoreID, AuthorizationModelId: e.ModelID,
+			Type: ev.T, Relation: ev.R, User: ev.U.String(), ContextualTuples: CtxTuples(ev.Ctxt), Context: ev.Ctx.ToProto(),
+			Consistency: consistency(ev.HC)})
+	}) {
+		ev.Got = []string{}
+		ev.IsErr, ev.Errk, ev.Err = true, "hang", fmt.Sprintf("ListObjects did not return within %s", HangLimit)
+		return
+	}
 	ev.Got = []string{}
 	if err != nil {
 		ev.IsErr, ev.Errk, ev.Err = true, ErrKind(err), err.Error()
@@ -232,11 +266,12 @@ func treeFromProto(n *openfgav1.UsersetTree_Node) *Tree {
 		switch lv := v.Leaf.GetValue().(type) {
 		case *openfgav1.UsersetTree_Leaf_Users:
 			t.K = "users"
-			t.Users = []Subj{}
+			users := []Subj{}
+			t.Users = &users
 			us := lv.Users.GetUsers()
 			t.Sorted = sort.StringsAreSorted(us)
 			for _, u := range us {
-				t.Users = append(t.Users, ParseSubj(u))
+				users = append(users, ParseSubj(u))
 			}
 		case *openfgav1.UsersetTree_Leaf_Computed:
 			t.K = "computed"
@@ -246,9 +281,10 @@ func treeFromProto(n *openfgav1.UsersetTree_Node) *Tree {
 			t.K = "ttu"
 			r := oref(lv.TupleToUserset.GetTupleset())
 			t.TS = &r
-			t.Computed = []ORef{}
+			comp := []ORef{}
+			t.Computed = &comp
 			for _, c := range lv.TupleToUserset.GetComputed() {
-				t.Computed = append(t.Computed, oref(c.GetUserset()))
+				comp = append(comp, oref(c.GetUserset()))
 			}
 		}
 	case *openfgav1.UsersetTree_Node_Union:
